@@ -1010,6 +1010,38 @@ def _alias_methods(trees: Dict[str, ast.Module]) -> int:
                 if not (isinstance(st, ast.Assign) and len(st.targets) == 1 and isinstance(st.targets[0], ast.Name)):
                     continue
                 v = st.value
+                if isinstance(v, ast.Call) and ast.unparse(v.func) in ("functools.partialmethod", "partialmethod") and v.args and isinstance(v.args[0], ast.Name):
+                    # name = partialmethod(f, a, k=b), f a method of the same class with plain parameters and the bound
+                    # arguments pure: written out as  def name(self, <rest>): return self.f(a, <rest>, k=b)
+                    tgt = [x for x in c.body if isinstance(x, ast.FunctionDef) and x.name == v.args[0].id]
+                    if len(tgt) != 1 or tgt[0].decorator_list:
+                        continue
+                    fa_ = tgt[0].args
+                    if fa_.vararg or fa_.kwarg or fa_.kwonlyargs or fa_.posonlyargs or fa_.defaults or not fa_.args:
+                        continue
+                    bound = list(v.args[1:])
+                    if not all(_pure_literal(b_) or isinstance(b_, (ast.Name, ast.Attribute)) for b_ in bound + [k_.value for k_ in v.keywords]) or any(k_.arg is None for k_ in v.keywords):
+                        continue
+                    names_ = [x.arg for x in fa_.args]
+                    rest_ = [p_ for p_ in names_[1 + len(bound):] if p_ not in {k_.arg for k_ in v.keywords}]
+                    if len(bound) > len(names_) - 1 or any(k_.arg not in names_[1 + len(bound):] for k_ in v.keywords):
+                        continue
+                    import copy as _copy
+
+                    fwd = ast.FunctionDef(
+                        name=st.targets[0].id,
+                        args=ast.arguments(posonlyargs=[], args=[ast.arg(arg=p_, annotation=None) for p_ in [names_[0]] + rest_], vararg=None, kwonlyargs=[], kw_defaults=[], kwarg=None, defaults=[]),
+                        body=[ast.Return(value=ast.Call(func=ast.Attribute(value=ast.Name(id=names_[0], ctx=ast.Load()), attr=tgt[0].name, ctx=ast.Load()), args=[_copy.deepcopy(b_) for b_ in bound] + [ast.Name(id=p_, ctx=ast.Load()) for p_ in rest_], keywords=[ast.keyword(arg=k_.arg, value=_copy.deepcopy(k_.value)) for k_ in v.keywords]))],
+                        decorator_list=[],
+                        returns=None,
+                        type_comment=None,
+                    )
+                    if hasattr(ast, "TypeVar"):
+                        fwd.type_params = []  # type: ignore
+                    ast.copy_location(fwd, st)
+                    c.body[i] = fwd
+                    n += 1
+                    continue
                 if not (isinstance(v, ast.Call) and isinstance(v.func, ast.Name) and v.func.id == "staticmethod" and len(v.args) == 1 and isinstance(v.args[0], ast.Name) and not v.keywords):
                     continue
                 cands = tops.get(v.args[0].id, [])
